@@ -130,6 +130,34 @@ if behav.startswith("srv:"):
 
 
 requests.get = fake_get
+if os.environ.get("VERIF_CLOCK") == "backwards":
+    # the wall clock is set back by one hour shortly after the program started (end of daylight-saving time under a
+    # local clock, a time-server step): every reading of the wall clock - time.time, datetime.now/utcnow/today - shows
+    # it; durations (time.monotonic) are unaffected.  Installed BEFORE the tool is imported.
+    import datetime as _dtm
+
+    _m0 = time.monotonic()
+    _realtime = time.time
+    _realdt = _dtm.datetime
+
+    def _off():
+        return -3600.0 if time.monotonic() - _m0 > 0.15 else 0.0
+
+    class _SteppedDT(_realdt):
+        @classmethod
+        def now(cls, tz=None):
+            return _realdt.fromtimestamp(_realtime() + _off(), tz)
+
+        @classmethod
+        def utcnow(cls):
+            return _realdt.fromtimestamp(_realtime() + _off(), _dtm.timezone.utc).replace(tzinfo=None)
+
+        @classmethod
+        def today(cls):
+            return cls.now()
+
+    _dtm.datetime = _SteppedDT
+    time.time = lambda: _realtime() + _off()
 import click
 from click.testing import CliRunner
 
